@@ -119,6 +119,9 @@ where
     }
 
     pub(crate) async fn run(&mut self, io: &mut PhysLayer) -> RequestError {
+        // the RTU server runs every opening of its port on the same session object: bytes and parser
+        // state left over from the previous opening must not be taken as the start of this stream
+        self.reader.reset();
         loop {
             if let Err(err) = self.run_one(io).await {
                 tracing::warn!("session error: {}", err);
